@@ -16,6 +16,9 @@ use std::time::Duration;
 #[derive(Clone, Debug, PartialEq)]
 pub enum Answer {
     Datagram(SocketAddr, Vec<u8>),
+    /// the same, but the datagram only arrives after the actor has been waiting for a while: half of the armed
+    /// read time-out (or one second when no time-out is armed)
+    LateDatagram(SocketAddr, Vec<u8>),
     Timeout,
     EarlyWouldBlock,
     Interrupted,
@@ -42,6 +45,9 @@ struct Sock {
     read_timeout: Option<Duration>,
     waiting: bool,
     wait_since: u128,
+    /// this actor's virtual clock: advanced by its own clock readings (1 ns each) and by its own waits, so that
+    /// what one actor thread observes never depends on how the OS interleaves it with the other actor's thread
+    clock: u128,
     answer: Option<Answer>,
     inbox: VecDeque<(SocketAddrV4, Vec<u8>)>,
 }
@@ -58,6 +64,8 @@ pub struct Env {
     m: Mutex<EnvInner>,
     cv: Condvar,
 }
+
+thread_local!(static ACTOR: std::cell::Cell<Option<usize>> = const { std::cell::Cell::new(None) });
 
 static ENV: OnceLock<Arc<Env>> = OnceLock::new();
 fn env() -> Arc<Env> {
@@ -82,6 +90,8 @@ impl NetEnv for Env {
             return Err(io::Error::new(io::ErrorKind::AddrInUse, "in use"));
         }
         g.socks[i].bound = true;
+        // spawn() binds on the actor's own thread: from now on this thread reads actor i's clock
+        ACTOR.with(|a| a.set(Some(i)));
         self.cv.notify_all();
         Ok(i as u64)
     }
@@ -99,7 +109,7 @@ impl NetEnv for Env {
         let s = sock as usize;
         let mut g = self.m.lock().unwrap();
         g.socks[s].waiting = true;
-        g.socks[s].wait_since = g.clock;
+        g.socks[s].wait_since = g.socks[s].clock;
         self.cv.notify_all();
         loop {
             if g.stop {
@@ -108,23 +118,35 @@ impl NetEnv for Env {
             }
             if let Some(a) = g.socks[s].answer.take() {
                 g.socks[s].waiting = false;
+                let year = Duration::from_secs(3600 * 24 * 365);
                 let res = match &a {
-                    Answer::Datagram(src, bytes) => {
-                        buf[..bytes.len()].copy_from_slice(bytes);
-                        Ok((bytes.len(), *src))
+                    Answer::Datagram(src, bytes) | Answer::LateDatagram(src, bytes) => {
+                        if matches!(a, Answer::LateDatagram(..)) {
+                            let waited = match g.socks[s].read_timeout {
+                                // half of the armed wait: well away from the deadline itself (a clock reading that
+                                // equals a deadline to the nanosecond is an artefact this environment does not construct)
+                                Some(d) if d < year => d.as_nanos() / 2,
+                                _ => 1_000_000_000,
+                            };
+                            g.socks[s].clock = g.socks[s].wait_since + waited;
+                        }
+                        // as UDP: a datagram longer than the buffer is truncated
+                        let k = bytes.len().min(buf.len());
+                        buf[..k].copy_from_slice(&bytes[..k]);
+                        Ok((k, *src))
                     }
                     Answer::Timeout => {
                         let t = g.socks[s].read_timeout.map(|d| d.as_nanos()).unwrap_or(0);
                         let until = g.socks[s].wait_since + t;
-                        if until > g.clock {
-                            g.clock = until;
+                        if until > g.socks[s].clock {
+                            g.socks[s].clock = until;
                         }
                         Err(io::Error::new(io::ErrorKind::WouldBlock, "timed out"))
                     }
                     Answer::EarlyWouldBlock => Err(io::Error::new(io::ErrorKind::WouldBlock, "spurious")),
                     Answer::Interrupted => Err(io::Error::new(io::ErrorKind::Interrupted, "interrupted")),
                 };
-                let c = g.clock;
+                let c = g.socks[s].clock;
                 g.events.push(Event::Answered { actor: s, answer: a, clock_after: c });
                 return res;
             }
@@ -142,8 +164,16 @@ impl NetEnv for Env {
     }
     fn now_ns(&self) -> u128 {
         let mut g = self.m.lock().unwrap();
-        g.clock += 1;
-        g.clock
+        match ACTOR.with(|a| a.get()) {
+            Some(i) if i < g.socks.len() => {
+                g.socks[i].clock += 1;
+                g.socks[i].clock
+            }
+            _ => {
+                g.clock += 1;
+                g.clock
+            }
+        }
     }
 }
 
@@ -222,7 +252,7 @@ impl Probe {
         let e = env();
         {
             let mut g = e.m.lock().unwrap();
-            let c = g.clock;
+            let c = g.socks[self.idx].clock;
             g.events.push(Event::Call { actor: self.idx, kind: kind.clone(), gen_seen, clock: c });
         }
         for c in cmds(self.script, &kind) {
@@ -265,9 +295,19 @@ fn ser(m: &u8) -> Result<Vec<u8>, String> {
 fn de(b: &[u8]) -> Result<u8, String> {
     if b.len() == 2 && b[1] == 0xA5 && b[0] < 100 {
         Ok(b[0])
+    } else if b.len() == MAX_UDP && b[0] < 100 && b[1..].iter().all(|x| *x == 0x5A) {
+        // the padded encoding: the largest payload an IPv4 UDP datagram can carry
+        Ok(b[0])
     } else {
         Err("undecodable".into())
     }
+}
+/// largest UDP payload over IPv4 (65535 - 20 - 8)
+const MAX_UDP: usize = 65_507;
+fn ser_padded(m: u8) -> Vec<u8> {
+    let mut v = vec![0x5A; MAX_UDP];
+    v[0] = m;
+    v
 }
 fn addr_num(a: SocketAddrV4) -> u64 {
     u64::from(u32::from(*a.ip())) << 16 | a.port() as u64
@@ -305,8 +345,11 @@ fn options(g: &EnvInner, single: bool) -> Vec<(usize, Answer, String)> {
                 mine.push((a, Answer::Datagram(SocketAddr::V4(addr_of(1)), ser(&m).unwrap()), format!("a{a}: datagram {m} from the peer")));
             }
             mine.push((a, Answer::Datagram(SocketAddr::V4(addr_of(2)), ser(&1).unwrap()), format!("a{a}: datagram 1 from an unknown address")));
+            mine.push((a, Answer::LateDatagram(SocketAddr::V4(addr_of(1)), ser(&1).unwrap()), format!("a{a}: datagram 1 from the peer, arriving after a long wait")));
+            mine.push((a, Answer::Datagram(SocketAddr::V4(addr_of(1)), ser_padded(2)), format!("a{a}: datagram 2 from the peer in a maximum-size ({MAX_UDP} bytes) encoding")));
         } else if let Some((from, bytes)) = s.inbox.front() {
             mine.push((a, Answer::Datagram(SocketAddr::V4(*from), bytes.clone()), format!("a{a}: next datagram in flight from {from}")));
+            mine.push((a, Answer::LateDatagram(SocketAddr::V4(*from), bytes.clone()), format!("a{a}: next datagram in flight from {from}, arriving after a long wait")));
         }
         mine.push((a, Answer::Datagram(SocketAddr::V4(addr_of(1)), vec![7, 7, 7]), format!("a{a}: undecodable bytes")));
         mine.push((a, Answer::Datagram(SocketAddr::V6(SocketAddrV6::new(Ipv6Addr::LOCALHOST, 5, 0, 0)), ser(&1).unwrap()), format!("a{a}: valid bytes from a non-IPv4 source")));
@@ -323,7 +366,7 @@ pub fn run_system(scripts: &[Script], schedule: &[usize], horizon: usize) -> Run
         let mut g = e.m.lock().unwrap();
         g.active = true;
         g.clock = 1_000_000;
-        g.socks = (0..scripts.len()).map(|i| Sock { bound: false, addr: addr_of(i), read_timeout: None, waiting: false, wait_since: 0, answer: None, inbox: VecDeque::new() }).collect();
+        g.socks = (0..scripts.len()).map(|i| Sock { bound: false, addr: addr_of(i), read_timeout: None, waiting: false, wait_since: 0, clock: 1_000_000, answer: None, inbox: VecDeque::new() }).collect();
         g.stop = false;
         g.events.clear();
     }
@@ -353,7 +396,7 @@ pub fn run_system(scripts: &[Script], schedule: &[usize], horizon: usize) -> Run
         let chosen = if k < schedule.len() { schedule[k] } else { 0 };
         assert!(chosen < opts.len(), "schedule diverged");
         let (a, ans, desc) = opts[chosen].clone();
-        if let Answer::Datagram(SocketAddr::V4(from), bytes) = &ans {
+        if let Answer::Datagram(SocketAddr::V4(from), bytes) | Answer::LateDatagram(SocketAddr::V4(from), bytes) = &ans {
             if n > 1 && g.socks[a].inbox.front() == Some(&(*from, bytes.clone())) {
                 g.socks[a].inbox.pop_front();
             }
@@ -470,7 +513,7 @@ pub fn check_log(scripts: &[Script], log: &RunLog) -> Vec<(String, String)> {
                     if pending_msg.take().is_some() {
                         v.push(("e6:datagram-lost".into(), format!("actor {a}: a valid IPv4 datagram was received but no on_msg call followed")));
                     }
-                    if let Answer::Datagram(SocketAddr::V4(from), bytes) = answer {
+                    if let Answer::Datagram(SocketAddr::V4(from), bytes) | Answer::LateDatagram(SocketAddr::V4(from), bytes) = answer {
                         if let Ok(m) = de(bytes) {
                             pending_msg = Some((addr_num(*from), m));
                         }
@@ -564,7 +607,7 @@ pub fn run_c17(a: &Args, shared: &SharedReport) {
     let th = a.tier == "thorough";
     {
         let mut r = shared.lock().unwrap();
-        r.rule = "every sequence of environment answers (datagram from the peer / from an unknown address / undecodable / non-IPv4 / read time-out / spurious WouldBlock / Interrupted) to the full depth, and beyond it every sequence with a bounded number of deviations from the default answer, for each probe script; each sequence is one execution of the real spawn() event loop over the virtual socket and clock; plus the Id <-> address sweep; non-trivial = all".into();
+        r.rule = "every sequence of environment answers (datagram from the peer - at once, after a long wait, or in a maximum-size encoding / from an unknown address / undecodable / non-IPv4 / read time-out / spurious WouldBlock / Interrupted) to the full depth, and beyond it every sequence with a bounded number of deviations from the default answer, for each probe script; each sequence is one execution of the real spawn() event loop over the virtual socket and clock; plus the Id <-> address sweep; non-trivial = all".into();
         r.bounds = json!({"all_sequences_to_depth": if th {"5 (two-actor system: 4)"} else {"3"}, "deviation_bounded_horizon": if th {10} else {8}, "max_deviations": if th {3} else {2}, "scripts": ["A","B","C","D (simultaneously due timers that cancel / re-arm each other)","ping-pong (two actors, real send_to between them)"],
             "id_sweep": if th {"all 2^32 addresses x 4 ports, all 2^16 ports x 16 addresses, per-byte sweep"} else {"2^24 addresses (stride) x 4 ports, all 2^16 ports x 16 addresses, per-byte sweep"}});
     }
